@@ -76,7 +76,10 @@ def _main() -> int:
             if args.head:
                 record_generator = islice(record_generator, args.lines)
             elif args.tail:
-                record_generator = reader.records(args.priority, offset=-args.lines)
+                n = min(args.lines, len(reader))
+                record_generator = (
+                    reader.records(args.priority, offset=-n) if n > 0 else iter(())
+                )
 
             for record in record_generator:
                 record.colored = colored
